@@ -223,11 +223,11 @@ PROPS = {
         ],
         "rule": "cases = searches of lock-step games (40 moves, tables carry over, no Clear between moves) on three independent engine instances: A plays with soft node limits and records the node count N_i each search ended with, "
                 "B replays every search with the hard budget N_i, C repeats A's requests. After EVERY move: (score, move, ponder, Counters.Nodes), the info lines with the time field stripped, and a digest of the complete persistent state "
-                "(every TT bucket, generation counter, all history tables - via the export hooks) must be equal between A and C and between A and B (B may add one trailing `info depth d nodes N` abort line), and B's node count must not exceed N_i; separately, ponder searches with a hard budget (ponderhit after 0..3000 us) must never count or report more than the budget. "
+                "(every TT bucket, generation counter, all history tables - via the export hooks) must be equal between A and C and between A and B (B may add one trailing `info depth d nodes N` abort line), and B's node count must not exceed N_i; separately, ponder searches with a hard budget (ponderhit after 0..3000 us) must never count or report more than the budget; and ACROSS PROCESSES (plain build): 32 (thorough 320) games of 12 hard-budget searches on one fresh engine each (starts with double pushes / e.p. captures close, tables 32 KB..8 MiB) are played in this process and in two new processes of the same test binary, and the per-search transcripts (move, ponder, score, nodes, hash of the info lines without wall-clock fields, state digest) must be identical - what the crash-reproduction workflow (`go nodes N` replayed in a new process) relies on. "
                 "Half of the games start their searches WITHOUT the Counters option (as the UCI driver does; node counts are then read from the info lines), half answer each engine move with an unsearched pseudo-random reply so that roots are not already in the table, one move in five has a tiny soft limit (1..12 nodes). Games run concurrently on 16 goroutines with CPU burners and GOMAXPROCS varied during the run, on plain and -race builds; table sizes 32000 B / 1 MiB / 8 MiB; soft limits 1..20000 nodes. "
                 "evaluations = searches; distinct_nontrivial = distinct games.",
         "assumptions": ["soft TIME limits are represented by soft NODE limits (the search treats both identically between iterations); wall-clock is not an observable", "digest = FNV-style hash over all table bytes and history entries"],
-        "technique": "runtime monitor: lock-step differential comparison of independent engine instances (results, traces, persistent-state digests) along whole games under load, with the Go race detector",
+        "technique": "runtime monitor: lock-step differential comparison of independent engine instances (results, traces, persistent-state digests) along whole games under load, in one process and across separately started processes of the same binary, with the Go race detector",
         "level_text": "In every explored game, after every move, engines in the same state given the same request produced identical results, traces and persistent state, and hard-budget replays reproduced soft-limited searches exactly without exceeding the budget (~6e3 searches quick / ~6e4 thorough per build); no race report across concurrently running instances. Held on the executions observed.",
         "level_note": "trusted: digest hooks cover tt, gen and the four history tables (the whole state Search keeps between calls); scheduling diversity is whatever 16 goroutines + burners + GOMAXPROCS changes produce",
     },
